@@ -49,11 +49,21 @@ type Val struct {
 	// Alts: a function value that is one of several statically known closures / bound methods, depending on the path
 	// taken (phi of function values, e.g. "f := a.M1; if c { f = a.M2 }"); a call through it is split per alternative
 	Alts []AltVal
+	// DynAlts: an interface value whose dynamic type is one of several statically known ones, depending on the path taken
+	// (e.g. "var c Coin = model; if x { c = Dummy{...} }"): a method call through it is split per alternative, each
+	// alternative dispatched to the concrete method
+	DynAlts []DynAlt
 }
 
 type AltVal struct {
 	G *Term
 	V Val
+}
+
+type DynAlt struct {
+	G   *Term
+	Dyn types.Type
+	V   Val
 }
 
 func tv(t *Term) Val { return Val{T: t} }
@@ -132,6 +142,16 @@ func (c *Ctx) fieldArrayName(structT types.Type, i int) string {
 
 func (c *Ctx) cellName(s Sort) string {
 	return c.heapName("cell!"+sanitize(string(s)), ArrSort(SInt, s))
+}
+
+// elemNameT: the element array of slices with element type el. Slices of pointers get an array family of their own
+// ("elem!Ptr"): they are never aliased with byte or integer slices, and keeping them apart keeps the many versions of
+// the byte array (every string/[]byte conversion writes one) out of queries about lists of objects.
+func (c *Ctx) elemNameT(el types.Type) string {
+	if _, ok := el.Underlying().(*types.Pointer); ok {
+		return c.heapName("elem!Ptr", ArrSort(SInt, ArrSort(SInt, SInt)))
+	}
+	return c.elemName(c.sortOf(el))
 }
 
 func (c *Ctx) elemName(s Sort) string {
@@ -833,11 +853,24 @@ func (fr *Frame) mergePhi(phi *ssa.Phi, b *ssa.BasicBlock, in []edgeIn) Val {
 		}
 		out = tv(c.define(phi.Comment+"."+phi.Name(), res))
 	}
-	// propagate statically known dynamic type when all agree
-	d := gvs[0].v.Dyn
-	for _, x := range gvs[1:] {
-		if x.v.Dyn == nil || d == nil || !types.Identical(x.v.Dyn, d) {
-			d = nil
+	// interface values whose dynamic type is known on every incoming edge: remember the alternatives
+	if _, isIface := phi.Type().Underlying().(*types.Interface); isIface {
+		var alts []DynAlt
+		known := true
+		for _, x := range gvs {
+			switch {
+			case len(x.v.DynAlts) > 0:
+				for _, a := range x.v.DynAlts {
+					alts = append(alts, DynAlt{G: tAnd(x.g, a.G), Dyn: a.Dyn, V: a.V})
+				}
+			case x.v.Dyn != nil && x.v.DynV != nil:
+				alts = append(alts, DynAlt{G: x.g, Dyn: x.v.Dyn, V: *x.v.DynV})
+			default:
+				known = false
+			}
+		}
+		if known && len(alts) > 1 && len(alts) <= 6 {
+			out.DynAlts = alts
 		}
 	}
 	return out
